@@ -189,11 +189,17 @@ Definition flat_read_frame (maxlen : Z) (final : errk) (s : bytes) : res bytes *
 
 (** * fAdapterTransport.readLoop *)
 Inductive loop_end :=
-| EndClean                      (* END_OF_FILE: f.close(nil) *)
+| EndClean                      (* END_OF_FILE between frames (nothing received that whole frames do not account for): f.close(nil) *)
 | EndRead (e : errk)            (* other read error: f.close(err) *)
 | EndExec (e : errk)            (* registry.Execute failed: f.close(err) *)
 | EndCrash
 | EndFuel.
+
+(** END_OF_FILE ends the loop cleanly only BETWEEN frames: the loop counts the bytes the connection
+    delivered and the bytes whole frames consumed; END_OF_FILE means the connection has delivered
+    everything, so the difference is exactly what was still unread when the frame read began *)
+Definition eof_end (unread : bytes) : loop_end :=
+  match unread with [] => EndClean | _ => EndRead EEOF end.
 
 (** number of frames dispatched and how the loop ends *)
 Fixpoint adapter_loop (fuel : nat) (maxlen : Z) (st : fstate) (n : Z) : Z * loop_end :=
@@ -207,7 +213,7 @@ Fixpoint adapter_loop (fuel : nat) (maxlen : Z) (st : fstate) (n : Z) : Z * loop
           | Err e => (n, EndExec e)
           | _ => (n, EndCrash)
           end
-      | (Err EEOF, _) => (n, EndClean)
+      | (Err EEOF, _) => (n, eof_end (avail st))
       | (Err e, _) => (n, EndRead e)
       | (Panic _, _) => (n, EndCrash)
       | (OutOfFuel, _) => (n, EndFuel)
@@ -225,7 +231,7 @@ Fixpoint flat_adapter_loop (fuel : nat) (maxlen : Z) (final : errk) (s : bytes) 
           | Err e => (n, EndExec e)
           | _ => (n, EndCrash)
           end
-      | (Err EEOF, _) => (n, EndClean)
+      | (Err EEOF, _) => (n, eof_end s)
       | (Err e, _) => (n, EndRead e)
       | (Panic _, _) => (n, EndCrash)
       | (OutOfFuel, _) => (n, EndFuel)
